@@ -163,7 +163,8 @@ func jsonAddKeyElements(s Entry, dict map[string]any) {
 		if _, exists := dict[schemaKeys[i]]; !exists {
 			// and finally we create the patheleme key attributes
 			dict[schemaKeys[i]] = treeElem.PathName()
-			treeElem = treeElem.GetParent()
 		}
+		// move one key level up, no matter if the key had to be added or did already exist
+		treeElem = treeElem.GetParent()
 	}
 }
